@@ -45,6 +45,9 @@ def _concat_sequence(fi, D, repo):
 
 
 def run(repo, rep, tier):
+    rep.rule("R-C08-6", "every parameter of the functions behind this property is read (regridding): none is accepted and then ignored")
+    from .shared import unused_parameters
+    unused_parameters(repo, rep, "R-C08-6", ("wavespectra.core.utils.regrid_spec", "wavespectra.core.utils.interp_spec", "wavespectra.core.utils.unique_indices", "wavespectra.specarray.SpecArray.interp", "wavespectra.specarray.SpecArray.interp_like", "wavespectra.specarray.SpecArray.rotate"), "regridding")
     rep.rule("R-C08-5", "the target freq / dir arguments reach the output coordinates unchanged (array coercion only)")
     rep.rule("R-C08-1", "circular padding pairs: the LAST sorted direction relabelled -360 in front when the target reaches below the "
                         "source minimum; the FIRST relabelled +360 behind when it reaches above the maximum")
